@@ -302,6 +302,43 @@ def strace_case(case, profile="dev"):
     return ev, (res[0] if res else {})
 
 
+def outside_check(R, oid, key, only=None):
+    """strace of the degenerate / refused / odd-path scenarios: NO create, mkdir, rename or unlink by path may name anything under
+    the oracle's world directory that is not the served root or below it - also not transiently (a staging file that is created
+    next to the root and removed again leaves no trace in the tree afterwards)"""
+    own = ("/world", "/world/outside", "/world/outside/sentinel")
+    cases = [c for c in scenarios() if (c.get("degenerate") or c.get("abs_under_root") or c.get("path", "").startswith(("..", "/")) or c.get("path") in ("d/..", "d/../../y"))
+             and (only is None or only(c)) and not c.get("trailing")]
+    cases.sort(key=lambda c: 0 if c.get("degenerate") else 1)
+    cases = cases[:160]
+    for c in cases:
+        ev, res = strace_case(c, "dev")
+        base = None
+        for nm, args, rc in ev:
+            m = re.search(r'"(/[^"]*/copia-verif-hub-\d+)/world', args)
+            if m:
+                base = m.group(1)
+                break
+        if base is None:
+            continue
+        for nm, args, rc in ev:
+            if nm not in ("openat", "open", "creat", "mkdir", "mkdirat", "rename", "renameat", "renameat2", "unlink", "rmdir", "symlink", "link"):
+                continue
+            if nm in ("openat", "open") and not re.search(r"O_CREAT|O_TRUNC|O_WRONLY|O_RDWR", args):
+                continue
+            for pth in re.findall(r'"(%s[^"]*)"' % re.escape(base), args):
+                rel = pth[len(base):]
+                if rel in own or rel == "" or rel == "/world/root" or rel.startswith("/world/root/"):
+                    continue
+                cc = dict(c)
+                cc["observed"] = {"dev": {"syscall": "%s(%s) = %s" % (nm, args.replace(base, "<B>")[:200], rc)}}
+                cc["deviation"] = "a path outside the served root is touched: <B>%s (served root: <B>/world/root)" % rel
+                cc["strace"] = True
+                return {"confirmed": True, "replay_path": R.save_replay(oid, cc), "key": key,
+                        "detail": "hub %s %r: %s(..%s..) touches a path OUTSIDE the served root (strace; it may be gone again afterwards)" % (c["op"], c.get("path"), nm, rel)}
+    return {"confirmed": False, "detail": "strace: no request names a path outside the served root on %d odd-path scenarios" % len(cases)}
+
+
 def logical_trace(ev, path):
     """map raw syscalls to the logical operations on the live path / staging / lock file, in order, starting at the
     handler (after the world set-up: from the first event that touches commit.lock, the staging name or happens after the
